@@ -13,10 +13,16 @@ PROP = {'engine': 'srv',
                   'IdxOp/`notifyIndex` is the observation point of the per-subscriber log in the theorems; in-order delivery of the queued instructions to '
                   'each subscriber is covered by the correspondence run and the replay oracle, not by a theorem'],
  'assumptions': ['subscribers that restrict the indexed parent with a content filter, or that received hostile/quiet traffic, are outside the replay oracle '
-                 '(the server suppresses index notifications for them by design)'],
+                 '(the server suppresses index notifications for them by design)',
+                 'subtree clone/restore destinations are plain alphanumeric names (GetDataNode(destPath) is a wildcard lookup); the model keeps an index as '
+                 'a list and cannot tell "no index" from "an index that was emptied again", which CloneDataNodeSubtree\'s _indexingPresent rule can: '
+                 'the generator leaves sources holding an emptied index out of the clone ops'],
  'rule': 'generated histories over 2-5 sessions on two hosts: attach/detach, SETDATA (incl. ADDTOINDEX), REMOVEDATA with wildcards, SUBSCRIBE with/without '
          'int32 filters, re-filter, unsubscribe, reflect-to-self, max-items, default route, client-to-client Messages with 0-2 key patterns, '
-         'INSERTORDEREDDATA, REORDERDATA, BATCH, PING, FindMatchingNodes; every 4th case is the hostile stream (arbitrary structurally valid Messages with '
+         'INSERTORDEREDDATA, REORDERDATA, BATCH, PING, FindMatchingNodes, and the server-side subtree calls CloneDataNodeSubtree / '
+         'SaveNodeTreeToMessage / RestoreNodeTreeFromMessage made directly on a session (ops clone/save/restore: indexed sources, fresh and existing '
+         'destinations, the same destination twice, a destination with its own index, source inside/above/equal to the destination, by the owner and '
+         'by other sessions, subscribers joining before and after; a few percent of the ops plus a directed scenario); every 4th case is the hostile stream (arbitrary structurally valid Messages with '
          'reserved names and wrong types, quiet flags, GETDATA, JETTISONRESULTS with filters while a client is not reading, connection cuts after a byte '
          'prefix) followed by a witness ping after every op; direct oracles evaluated on the real server at every quiescent point; distinct = distinct case '
          'bodies',
@@ -31,10 +37,15 @@ TEXT = {'design_ref': 'DESIGN.md section 4, C13',
          'replayed on the old index, give the new index (`log_replay_*`, `log_replay` for any sequence, `snapshot_then_log_replay` for a client that joins '
          'with a snapshot), every position is in range (`positions_in_range*`), a removed child leaves the index (`remove_drops_entry`), generated names are '
          'fresh (`generated_name_fresh`); the invariant "every index is duplicate-free and lists only existing children, sibling names distinct" holds in '
-         'every state reachable from the empty server by attach, detach, any command of the reflector engine, pushes and pumps (`index_sound_reach`, '
-         '`index_sound_engine`, `index_sound`).  Tie: the model reproduces the real server line by line; the harness keeps, per client and per indexed node, '
+         'every state reachable from the empty server by attach, detach, any command of the reflector engine, subtree clones and restores, pushes and '
+         'pumps (`index_sound_reach`, `index_sound_engine`, `index_sound`); CloneDataNodeSubtree (as repaired by 003a760) and '
+         'RestoreNodeTreeFromMessage keep it from every state, for every source/destination relation and every saved tree (`index_sound_clone`, '
+         '`index_sound_restore`), the clone loop as it was before 003a760 does not (`index_unsound_clone_before_003a760`), and the instructions a clone '
+         'emits for the destination replay from its old index to its new one with every position in range (`log_replay_clone`, '
+         '`log_replay_clone_loop`, `positions_in_range_clone`, `clone_emitted`).  Tie: the model reproduces the real server line by line; the harness keeps, per client and per indexed node, '
          "the index obtained by replaying every PR_RESULT_INDEXUPDATED Message and compares it with the server's DataNode index at every quiescent point, and "
          'checks the invariant on the real tree.',
- 'note': 'Subtree clone/restore (CloneDataNodeSubtree, RestoreNodeTreeFromMessage) is not reachable from the client protocol of the stock server and is not '
-         'modelled.  The theorems observe the log where NodeIndexChanged is called; queueing per subscriber and flushing in order is covered by correspondence '
+ 'note': 'Subtree clone/restore (CloneDataNodeSubtree, RestoreNodeTreeFromMessage) is not reachable from the client protocol of the stock server '
+         '(PR_COMMAND_SETDATATREES is bounced as unimplemented); the harness calls them on the session object, followed by one '
+         'PushSubscriptionMessages().  The theorems observe the log where NodeIndexChanged is called; queueing per subscriber and flushing in order is covered by correspondence '
          'only.'}
